@@ -107,8 +107,74 @@ def check_codec(version: str, f: tuple, sch=None) -> list:
         line2 = sch.dump(m)
         if line2 != R.enc(*g):
             bad("decoded-then-modified-encodes-stale", f"decoded {want!r}, set node_id={m.node_id} payload={m.payload!r}, encoded as {line2!r}, expected {R.enc(*g)!r}")
+        # (f) the application changed the message it got; the same line arrives again
+        again2 = sch.load(want)
+        if fields_of(again2) != f:
+            bad("decode-after-result-modified", f"{want!r} was decoded, the result object modified by the application, then the same line decoded again: {fields_of(again2)}")
     except Exception as exc:  # noqa: BLE001
         bad(f"modify-raised:{type(exc).__name__}", f"decode/modify/encode of {want!r} raised {exc}")
+    return viols
+
+
+def stream_case(job) -> list:
+    """Encoded lines travel over a stream transport that breaks after every possible byte: what the gateway
+    yields is the message that was encoded, or the break is reported as an error - never a different message."""
+    import asyncio
+    from unittest.mock import patch
+
+    from aiomysensors.exceptions import AIOMySensorsError
+    from aiomysensors.gateway import Gateway
+    from aiomysensors.transport.serial import SerialTransport
+    from aiomysensors.transport.tcp import TCPTransport
+
+    from ..harness import drive, drive_loop
+
+    version, kind = job
+    viols = []
+    msgs = [(12, 1, 1, 0, 0, "21.5"), (7, 4, 1, 1, 47, "a;b;c"), (1, 255, 3, 0, 11, "sketch é"), (255, 255, 3, 0, 3, ""), (1, 0, 2, 0, 2, "")]
+    sch = schema(version)
+    loop = drive_loop()
+
+    class W:
+        def write(self, b):
+            pass
+
+        async def drain(self):
+            pass
+
+        def close(self):
+            pass
+
+        async def wait_closed(self):
+            pass
+
+    for f in msgs:
+        data = sch.dump(Message(*f)).encode("utf-8")
+        for cut in range(len(data) + 1):
+            reader = asyncio.StreamReader(loop=loop)
+            reader.feed_data(data[:cut])
+            reader.feed_eof()
+
+            async def factory(*a, _r=reader, **kw):
+                return _r, W()
+
+            t = TCPTransport("h") if kind == "tcp" else SerialTransport("p")
+            with patch("aiomysensors.transport.tcp.asyncio.open_connection" if kind == "tcp" else "aiomysensors.transport.serial.open_serial_connection", factory):
+                drive(t.connect())
+            gw = Gateway(t)
+            gw.protocol_version = version
+            gw.nodes  # noqa: B018
+            try:
+                m = drive(gw.listen().__anext__())
+                got = fields_of(m)
+                if got != f:
+                    viols.append((f"C01|stream-break-yields-other-message|semicolon={';' in f[5]}", f"[{version}/{kind}] message {f} encoded as {data!r}; the connection ends after {cut} of {len(data)} bytes: the gateway yields {got}", {"version": version, "mode": "stream", "kind": kind}))
+                    break
+            except AIOMySensorsError:
+                pass
+            except Exception as exc:  # noqa: BLE001
+                viols.append((f"C01|stream-break-raised:{type(exc).__name__}|semicolon={';' in f[5]}", f"[{version}/{kind}] message {f}; the connection ends after {cut} bytes: {type(exc).__name__}: {exc}", {"version": version, "mode": "stream", "kind": kind}))
+                break
     return viols
 
 
@@ -285,6 +351,7 @@ def run(ctx: core.Ctx) -> core.Report:
     ljobs = list(R.VERSIONS) + [(v, r) for v in R.VERSIONS for r in ((1, v), (3, v), (100, v), (1, "2.2" if v != "2.2" else "1.4"), (127, "2.0" if v != "2.0" else "1.5"))]
     lres = core.pmap(long_run, ljobs, ctx.workers, chunksize=1)
     lres += core.pmap(gateway_run, list(R.VERSIONS), ctx.workers, chunksize=1)
+    lres += core.pmap(stream_case, [(v, k) for v in R.VERSIONS for k in ("tcp", "serial")], ctx.workers, chunksize=1)
     # last: these jobs deliberately leave the worker processes "used"
     lres += core.pmap(after_activity, list(R.VERSIONS), ctx.workers, chunksize=1)
     total = sum(r[0] for r in res) + sum(r[0] for r in res2)
@@ -294,7 +361,7 @@ def run(ctx: core.Ctx) -> core.Report:
     cov = {
         "evaluations": total,
         "distinct_nontrivial": semi,
-        "rule": "field grid (filtered by the cross-field rules) x all payload strings up to length L over sigma without trailing whitespace, x five versions; each distinct message goes through encode, decode, re-encode of the real codec; set messages additionally through Gateway.send / Gateway.listen; plus long runs on one decoder (protocol set again after 1/3/100/127 lines, to the same or via another version), a long gateway session whose version report arrives late, and the reduced grid re-run in a process that has used persistence and a gateway (not counted in evaluations); non-trivial = payload contains the ';' delimiter",
+        "rule": "field grid (filtered by the cross-field rules) x all payload strings up to length L over sigma without trailing whitespace, x five versions; each distinct message goes through encode, decode, re-encode of the real codec; set messages additionally through Gateway.send / Gateway.listen; plus long runs on one decoder (protocol set again after 1/3/100/127 lines, to the same or via another version), a long gateway session whose version report arrives late, encoded lines over a TCP / serial stream that ends after every possible byte, and the reduced grid re-run in a process that has used persistence and a gateway (not counted in evaluations); non-trivial = payload contains the ';' delimiter",
         "exhaustive": True,
         "bounds": {"field_combinations": len(grid), "payload_strings": len(pls), "sigma": alpha["sigma"], "L": alpha["L"]},
         "samples": [list(grid[ctx.seed % len(grid)]) + [pls[(ctx.seed * 7 + 11) % len(pls)]], list(grid[-1]) + [pls[-1]], [1, 1, 1, 0, 2, pls[len(pls) // 2]]],
@@ -308,6 +375,9 @@ def run(ctx: core.Ctx) -> core.Report:
 
 
 def replay(data: dict) -> dict:
+    if data.get("mode") == "stream":
+        v = stream_case((data["version"], data["kind"]))
+        return {"violated": bool(v), "violations": [{"key": k, "what": w} for k, w, _ in v]}
     if data.get("mode") == "gatewayrun":
         v = gateway_run(data["version"])
         return {"violated": bool(v), "violations": [{"key": k, "what": w} for k, w, _ in v]}
